@@ -1,8 +1,125 @@
-/- C10 — placeholder: the extracted program is the expected one (property theorems follow in Proofs/Server.lean) -/
+/-
+  C10 — Server keeps each service in a forward-only, write-once state machine.
+  The theorems are about the program extracted from frontend/server/** on this run
+  (`Generated.serverProgram`), which `program_is_expected` identifies with the program the refinement
+  was proved for.  Histories are arbitrary finite lists of events on one service id: messages
+  config(c) / upload(e) / search(t) / foreign sid / missing type or sid / unknown type, and
+  reconnections (after or before the previous connection's cleanup), over any number of connections.
+-/
+import SSEPyVerif.Proofs.Server
 import SSEPyVerif.Generated.ServerIR
 namespace SSEPy.C10
 open SSEPy.ServerIR
 
-theorem recv_loop_standard : SSEPy.Generated.serverProgram.recvLoopIsStandard = true := by decide
+/-- the tie: what the translator read from the source today is the program of the proofs -/
+theorem program_is_expected : SSEPy.Generated.serverProgram = expectedProgram := by decide
+
+abbrev G := SSEPy.Generated.serverProgram
+
+theorem G_eq : G = expectedProgram := program_is_expected
+
+/-- every state reachable from the empty disk is consistent (`Inv`) -/
+theorem reachable_inv (evs : List Ev) : Inv (runEvs G {} evs).1 := by
+  rw [G_eq]; exact (run_refines evs {} inv_init).1
+
+/-- the observable trace of any history equals the trace of the three-state reference machine, and
+    the durable state denotes the reference machine's state -/
+theorem refines_three_state_machine (evs : List Ev) :
+    (runEvs G {} evs).2 = (spec3Run {} evs).2 ∧ absS (runEvs G {} evs).1 = (spec3Run {} evs).1 := by
+  rw [G_eq]
+  have h := run_refines evs {} inv_init
+  have h0 : absS ({} : SrvD) = ({} : Spec3) := rfl
+  rw [h0] at h
+  exact ⟨h.2.1, h.2.2⟩
+
+/-- one more event after any history behaves as one step of the reference machine -/
+theorem step_after (evs : List Ev) (e : Ev) :
+    let s := (runEvs G {} evs).1
+    (stepEv G s e).2 = (spec3Step (absS s) e).2 ∧ absS (stepEv G s e).1 = (spec3Step (absS s) e).1 := by
+  have hinv := reachable_inv evs
+  rw [G_eq] at hinv ⊢
+  exact (step_refines _ hinv e).2
+
+/-! the reference machine's laws, hence (by `step_after`) the server's after any history -/
+
+/-- the reference states that denote a durable state: nothing / a configuration / configuration and index -/
+def Ok (t : Spec3) : Prop :=
+  (t.st = 0 ∧ t.cfg = none ∧ t.edb = none) ∨ (t.st = 1 ∧ t.cfg.isSome ∧ t.edb = none) ∨
+  (t.st = 2 ∧ t.cfg.isSome ∧ t.edb.isSome)
+
+theorem reachable_ok (evs : List Ev) : Ok (absS (runEvs G {} evs).1) := by
+  obtain ⟨st, cfg, edb, hs, _, _⟩ := reachable_inv evs
+  rw [absS_of_shape _ st cfg edb hs]
+  cases hs' : (runEvs G {} evs).1.disk
+  rw [hs'] at hs
+  cases hs <;> simp [Ok]
+
+/-- the reported state only moves not-configured → configured → ready -/
+theorem state_monotone (t : Spec3) (e : Ev) (hok : Ok t) : t.st ≤ (spec3Step t e).1.st ∧ (spec3Step t e).1.st ≤ 2 := by
+  have h : t.st ≤ 2 := by rcases hok with h | h | h <;> omega
+  cases e with
+  | reconnect => exact ⟨Nat.le_refl _, h⟩
+  | reconnectFast => exact ⟨Nat.le_refl _, h⟩
+  | msg m =>
+    cases m <;> simp only [spec3Step, spec3Msg, Spec3.die] <;>
+      (repeat' split) <;> simp_all <;> omega
+
+/-- an accepted configuration or index is never replaced -/
+theorem write_once (t : Spec3) (e : Ev) (hok : Ok t) :
+    (∀ c, t.cfg = some c → (spec3Step t e).1.cfg = some c) ∧ (∀ x, t.edb = some x → (spec3Step t e).1.edb = some x) := by
+  unfold Ok at hok
+  cases e with
+  | reconnect => exact ⟨fun _ h => h, fun _ h => h⟩
+  | reconnectFast => exact ⟨fun _ h => h, fun _ h => h⟩
+  | msg m =>
+    cases m <;> simp only [spec3Step, spec3Msg, Spec3.die] <;>
+      (repeat' split) <;> simp_all
+
+/-- a search is answered with a result only in the ready state, and then from the accepted index
+    under the accepted configuration -/
+theorem search_only_when_ready (t : Spec3) (e : Ev) (c : Cfg) (x : Edb) (k : Tok)
+    (h : Out.result c x k ∈ (spec3Step t e).2) : t.st = 2 ∧ t.cfg = some c ∧ t.edb = some x := by
+  cases e with
+  | reconnect => simp [spec3Step] at h
+  | reconnectFast => simp [spec3Step] at h
+  | msg m =>
+    cases m <;> simp only [spec3Step, spec3Msg, Spec3.die] at h <;>
+      (repeat' split at h) <;> simp_all
+
+/-- a refused request (the connection is closed on the client) changes nothing durable -/
+theorem refused_changes_nothing (t : Spec3) (e : Ev) (h : Out.closed ∈ (spec3Step t e).2) :
+    (spec3Step t e).1.st = t.st ∧ (spec3Step t e).1.cfg = t.cfg ∧ (spec3Step t e).1.edb = t.edb := by
+  cases e with
+  | reconnect => simp [spec3Step] at h
+  | reconnectFast => simp [spec3Step] at h
+  | msg m =>
+    cases m <;> simp only [spec3Step, spec3Msg, Spec3.die] at h ⊢ <;>
+      (repeat' split at h) <;> (repeat' split) <;> simp_all
+
+/-- the state reported at the start of a connection is the state reached by the accepted requests -/
+theorem reported_state_is_durable (t : Spec3) (e : Ev) (n : Nat) (h : Out.initEcho n ∈ (spec3Step t e).2) :
+    n = t.st := by
+  cases e with
+  | reconnect => simpa [spec3Step] using h
+  | reconnectFast => simpa [spec3Step] using h
+  | msg m =>
+    cases m <;> simp only [spec3Step, spec3Msg, Spec3.die] at h <;>
+      (repeat' split at h) <;> simp_all
+
+/-- on a consistent server state the echo reports exactly what is on disk -/
+theorem reported_state_is_disk_state (evs : List Ev) :
+    let s := (runEvs G {} evs).1
+    (stepEv G s .reconnect).2 = [.initEcho (absS s).st] := by
+  have h := step_after evs .reconnect
+  simp only [spec3Step] at h
+  exact h.1
+
+/-! ### non-vacuity: a concrete history, evaluated by the kernel on the extracted program -/
+example :
+    (runEvs G {} [.msg (.search (some 1)), .msg (.config (some 7)), .msg (.config (some 8)), .msg (.upload 3),
+                  .reconnectFast, .msg (.upload 4), .msg (.search (some 1))]).2
+      = [.initEcho 0, .refused "result", .closed, .initEcho 0, .ok "config", .refused "config", .closed,
+         .initEcho 1, .ok "upload_edb", .initEcho 2, .refused "upload_edb", .closed, .initEcho 2, .result 7 3 1] := by
+  decide
 
 end SSEPy.C10
